@@ -324,3 +324,7 @@ impl ReadCursor {
         }
     }
 }
+
+#[cfg(multiqueue2_verif)]
+#[path = "verif_hooks/read_cursor_access.rs"]
+pub mod verif_access;
